@@ -8,10 +8,11 @@ P("C16",
             "Coq-verified requester-view acceptor (accepts_sound) with trace inclusion over random real assemblies",
   level_text="L0: merge_is_flat_write proves for every store/address/data/mask that the read-modify-write of the ideal controller, the banked memory and the "
              "(fixed) DRAM controller, and the in-line merges of both cache families, equal the flat masked write. "
+             "L1: c16_ideal_transparent: the tick-level model of the ideal controller (tied tick by tick to the real component, incl. back-pressure) never produces a response the automaton rejects, for every schedule. "
              "L2: accepts_sound proves that every accepted requester-port history satisfies the declarative statement (fresh well-formed requests, "
              "byte-disjoint in flight; every response answers a request in flight with the matching kind, addressed to its sender; read data = the "
              "latest acknowledged write to each byte in acknowledgement order, zero if none; nothing unanswered at the end).",
-  level_note="PARTIAL for whole components: the pipelines of the write-back and write-through caches, the ROB, the banked memory and the DRAM command "
+  level_note="PARTIAL for whole components (the ideal controller is modelled exactly): the pipelines of the write-back and write-through caches, the ROB, the banked memory and the DRAM command "
              "scheduler are not modelled deterministically; the tie for them is trace inclusion: every requester-port history recorded from random real "
              "assemblies (compositions, geometries, interleaving, masks, PIDs, concurrency) must be accepted by the Coq acceptor (vm_compute).",
   assumptions=["no two in-flight requests touch the same byte (enforced by the recording agent at issue time, re-checked by the acceptor)",
